@@ -2215,16 +2215,28 @@ static long double eval_double(Node *node) {
   return val;
 }
 
+// `node, saved` if there is a saved old value, otherwise `node`.
+static Node *with_old(Node *node, Obj *saved) {
+  if (!saved)
+    return node;
+  return new_binary(ND_COMMA, node, new_var_node(saved, node->tok), node->tok);
+}
+
 // Convert op= operators to expressions containing an assignment.
 //
 // In general, `A op= C` is converted to ``tmp = &A, *tmp = *tmp op B`.
 // However, if a given expression is of form `A.x op= C`, the input is
 // converted to `tmp = &A, (*tmp).x = (*tmp).x op C` to handle assignments
 // to bitfields.
-static Node *to_assign(Node *binary) {
+//
+// If `want_old` is set (postfix ++ and --), the value of the result is
+// the value A had before the assignment: `tmp = &A, old = *tmp,
+// *tmp = old op C, old`.
+static Node *to_assign_old(Node *binary, bool want_old) {
   add_type(binary->lhs);
   add_type(binary->rhs);
   Token *tok = binary->tok;
+  Obj *saved = want_old ? new_lvar("", binary->lhs->ty) : NULL;
 
   // Convert `A.x op= C` to `tmp = &A, (*tmp).x = (*tmp).x op C`.
   // (An atomic member is handled by the compare-and-swap loop below.)
@@ -2244,11 +2256,16 @@ static Node *to_assign(Node *binary) {
                             tok);
     expr3->member = binary->lhs->member;
 
+    if (saved) {
+      expr1 = new_binary(ND_COMMA, expr1, new_binary(ND_ASSIGN, new_var_node(saved, tok), expr3, tok), tok);
+      expr3 = new_var_node(saved, tok);
+    }
+
     Node *expr4 = new_binary(ND_ASSIGN, expr2,
                              new_binary(binary->kind, expr3, binary->rhs, tok),
                              tok);
 
-    return new_binary(ND_COMMA, expr1, expr4, tok);
+    return with_old(new_binary(ND_COMMA, expr1, expr4, tok), saved);
   }
 
   // If A is an atomic type, Convert `A op= B` to
@@ -2306,7 +2323,7 @@ static Node *to_assign(Node *binary) {
     loop->cond = new_unary(ND_NOT, cas, tok);
 
     cur = cur->next = loop;
-    cur = cur->next = new_unary(ND_EXPR_STMT, new_var_node(new, tok), tok);
+    cur = cur->next = new_unary(ND_EXPR_STMT, new_var_node(saved ? old : new, tok), tok);
 
     Node *node = new_node(ND_STMT_EXPR, tok);
     node->body = head.next;
@@ -2319,16 +2336,23 @@ static Node *to_assign(Node *binary) {
   Node *expr1 = new_binary(ND_ASSIGN, new_var_node(var, tok),
                            new_unary(ND_ADDR, binary->lhs, tok), tok);
 
+  Node *val = new_unary(ND_DEREF, new_var_node(var, tok), tok);
+  if (saved) {
+    expr1 = new_binary(ND_COMMA, expr1, new_binary(ND_ASSIGN, new_var_node(saved, tok), val, tok), tok);
+    val = new_var_node(saved, tok);
+  }
+
   Node *expr2 =
     new_binary(ND_ASSIGN,
                new_unary(ND_DEREF, new_var_node(var, tok), tok),
-               new_binary(binary->kind,
-                          new_unary(ND_DEREF, new_var_node(var, tok), tok),
-                          binary->rhs,
-                          tok),
+               new_binary(binary->kind, val, binary->rhs, tok),
                tok);
 
-  return new_binary(ND_COMMA, expr1, expr2, tok);
+  return with_old(new_binary(ND_COMMA, expr1, expr2, tok), saved);
+}
+
+static Node *to_assign(Node *binary) {
+  return to_assign_old(binary, false);
 }
 
 // assign    = conditional (assign-op assign)?
@@ -3008,11 +3032,11 @@ static Node *struct_ref(Node *node, Token *tok) {
   return node;
 }
 
-// Convert A++ to `(typeof A)((A += 1) - 1)`
+// Convert A++ to `(typeof A)(tmp = &A, old = *tmp, *tmp = old + 1, old)`.
+// (The cast keeps the result from being an lvalue.)
 static Node *new_inc_dec(Node *node, Token *tok, int addend) {
   add_type(node);
-  return new_cast(new_add(to_assign(new_add(node, new_num(addend, tok), tok)),
-                          new_num(-addend, tok), tok),
+  return new_cast(to_assign_old(new_add(node, new_num(addend, tok), tok), true),
                   node->ty);
 }
 
